@@ -74,6 +74,7 @@ type Case struct {
 	RevMods []RevMod `json:"revision_modules,omitempty"`
 	SubRevs []string `json:"submodule_revisions,omitempty"` // "" = a text without revision
 	Nested  bool     `json:"nested,omitempty"`              // sub includes sub2, which the modules include too
+	Deep    bool     `json:"deep,omitempty"`                // with Nested: sub2 includes sub3, which the modules include too
 	// split
 	Whole *ymodel.Set `json:"whole,omitempty"`
 	Split *ymodel.Set `json:"split,omitempty"`
@@ -380,7 +381,9 @@ func checkFiles(c Case, o *ev.Outcome) {
 				rev = " revision " + d + ";"
 			}
 		}
-		text := fmt.Sprintf("module %s { namespace \"urn:d%d/%s\"; prefix p;%s }\n", c.Want, f.Dir, f.Name, rev)
+		// every candidate augments a container of its own: a module that was fetched must be processed like one
+		// that was handed in
+		text := fmt.Sprintf("module %s { namespace \"urn:d%d/%s\"; prefix p;%s container box { } augment \"/p:box\" { leaf fetched-and-augmented { type string; } } }\n", c.Want, f.Dir, f.Name, rev)
 		os.WriteFile(p, []byte(text), 0o644)
 		if f.Name != c.Want+".yang" && !(strings.HasPrefix(f.Name, c.Want+"@") && strings.HasSuffix(f.Name, ".yang") && dateRE(strings.TrimSuffix(strings.TrimPrefix(f.Name, c.Want+"@"), ".yang"))) {
 			nearMiss++
@@ -464,6 +467,13 @@ func checkFiles(c Case, o *ev.Outcome) {
 		m = ms.Modules[c.Want]
 	}
 	exp := fmt.Sprintf("urn:d%d/%s", wantDir, wantFile)
+	if m != nil && m.Namespace.Name == exp && c.ViaImp {
+		// Process has run: the module's own augment has been applied
+		if box := yang.ToEntry(m).Dir["box"]; box == nil || box.Dir["fetched-and-augmented"] == nil {
+			o.Violate("fetched-is-processed", "C13/files/fetched-module-not-augmented/"+how, "d%d/%s was fetched for the import and processing reported no error, but its own augment of /box has not been applied", wantDir, wantFile)
+			return
+		}
+	}
 	if m == nil || m.Namespace.Name != exp {
 		got := "nothing"
 		if m != nil {
@@ -506,7 +516,13 @@ func dumpModule(ms *yang.Modules, name string) string {
 		ids = append(ids, id.Name+":"+strings.Join(vs, ","))
 	}
 	sort.Strings(ids)
-	return string(j) + fmt.Sprint(problems) + strings.Join(ids, ";")
+	// the identities the module's entry lists as its own (as a set: the order of texts differs by construction)
+	var own []string
+	for _, id := range yang.ToEntry(m).Identities {
+		own = append(own, id.Name)
+	}
+	sort.Strings(own)
+	return string(j) + fmt.Sprint(problems) + strings.Join(ids, ";") + " entry-identities=" + strings.Join(own, ",")
 }
 
 func checkSplit(c Case, o *ev.Outcome) {
@@ -589,8 +605,15 @@ func (c Case) revsubTexts() []ymodel.Source {
 		}
 		if c.Nested {
 			inc += " include sub2;"
+			if c.Deep {
+				inc += " include sub3;"
+			}
 		}
-		out = append(out, ymodel.Source{Name: "rm@" + m.Rev + ".yang", Text: fmt.Sprintf("module rm {\n namespace \"urn:rm\";\n prefix r;\n %s\n revision %s;\n leaf top%d { type subt; }\n identity modid { base subid; }\n identity modbase;\n}\n", inc, m.Rev, i)})
+		out = append(out, ymodel.Source{Name: "rm@" + m.Rev + ".yang", Text: fmt.Sprintf("module rm {\n namespace \"urn:rm\";\n prefix r;\n %s\n revision %s;\n leaf top%d { type subt; }\n container holder { }\n identity modid { base subid; }\n identity modbase;\n}\n", inc, m.Rev, i)})
+	}
+	for i, m := range c.RevMods {
+		// an importer of exactly this revision that names the typedef the submodule holds
+		out = append(out, ymodel.Source{Name: fmt.Sprintf("imp%d.yang", i), Text: fmt.Sprintf("module imp%d {\n namespace \"urn:imp%d\";\n prefix q;\n import rm { prefix r; revision-date %s; }\n leaf l { type r:subt; }\n}\n", i, i, m.Rev)})
 	}
 	for j, d := range c.SubRevs {
 		rev, name, inc := "", "sub.yang", ""
@@ -600,10 +623,17 @@ func (c Case) revsubTexts() []ymodel.Source {
 		if c.Nested {
 			inc = " include sub2;"
 		}
-		out = append(out, ymodel.Source{Name: name, Text: fmt.Sprintf("submodule sub {\n belongs-to rm { prefix r; }%s%s\n leaf sub%d { type string; }\n typedef subt { type string; units \"s%d\"; }\n identity subid;\n identity subderived { base subid; }\n}\n", inc, rev, j, j)})
+		out = append(out, ymodel.Source{Name: name, Text: fmt.Sprintf("submodule sub {\n belongs-to rm { prefix r; }\n import idb { prefix b; }%s%s\n leaf sub%d { type string; }\n typedef subt { type string; units \"s%d\"; }\n identity subid;\n identity subderived { base subid; }\n identity x { base b:top; }\n augment \"/r:holder\" { leaf aug%d { type string; } }\n}\n", inc, rev, j, j, j)})
 	}
+	// every text of sub derives an identity of the same name from this one
+	out = append(out, ymodel.Source{Name: "idb.yang", Text: "module idb {\n namespace \"urn:idb\";\n prefix b;\n identity top;\n}\n"})
 	if c.Nested {
-		out = append(out, ymodel.Source{Name: "sub2.yang", Text: "submodule sub2 {\n belongs-to rm { prefix r; }\n leaf nested { type string; }\n}\n"})
+		inc3 := ""
+		if c.Deep {
+			inc3 = " include sub3;\n"
+			out = append(out, ymodel.Source{Name: "sub3.yang", Text: "submodule sub3 {\n belongs-to rm { prefix r; }\n leaf deep { type string; }\n}\n"})
+		}
+		out = append(out, ymodel.Source{Name: "sub2.yang", Text: "submodule sub2 {\n belongs-to rm { prefix r; }\n" + inc3 + " leaf nested { type string; }\n}\n"})
 	}
 	return out
 }
@@ -619,6 +649,9 @@ func checkRevSub(c Case, o *ev.Outcome) {
 	if c.Nested {
 		o.Class("revsub/nested-include")
 	}
+	if c.Deep {
+		o.Class("revsub/include-chain-of-three")
+	}
 	latestSub := -1
 	for j, d := range c.SubRevs {
 		if latestSub < 0 || d > c.SubRevs[latestSub] {
@@ -633,7 +666,21 @@ func checkRevSub(c Case, o *ev.Outcome) {
 		}
 		perms = [][]int{idx}
 	}
+	firstTop := ""
 	for _, perm := range perms {
+		// a stored order from before a text was added to the scenario: the texts it does not name come last
+		if len(perm) < len(srcs) {
+			have := map[int]bool{}
+			for _, i := range perm {
+				have[i] = true
+			}
+			perm = append([]int(nil), perm...)
+			for i := range srcs {
+				if !have[i] {
+					perm = append(perm, i)
+				}
+			}
+		}
 		ms := yang.NewModules()
 		for _, i := range perm {
 			if i < 0 || i >= len(srcs) {
@@ -653,8 +700,31 @@ func checkRevSub(c Case, o *ev.Outcome) {
 			o.Violate("include-is-inline", "C13/revsub/rejected", "load order %v: processing failed: %v", perm, errs)
 			return
 		}
+		// the identities of the same name that the texts of sub derive from idb:top: listed in the same order in
+		// every run
+		if idb := ms.Modules["idb"]; idb != nil && len(idb.Identity) == 1 {
+			var vals []string
+			for _, v := range idb.Identity[0].Values {
+				vals = append(vals, yang.RootNode(v).FullName()+":"+v.Name)
+			}
+			seenVal := map[string]bool{}
+			for _, v := range vals {
+				if seenVal[v] {
+					o.Violate("listed-once", "C13/revsub/identity-listed-twice", "load order %v: idb:top lists %v (a text of sub that two revisions of rm include contributes its identity once)", perm, vals)
+					return
+				}
+				seenVal[v] = true
+			}
+			got := fmt.Sprint(vals)
+			if firstTop == "" {
+				firstTop = got
+			} else if got != firstTop {
+				o.Violate("fixed-order", "C13/revsub/identity-order-varies", "load order %v: idb:top lists %s, an earlier run listed %s", perm, got, firstTop)
+				return
+			}
+		}
 		for i, m := range c.RevMods {
-			want := []string{fmt.Sprintf("top%d", i)}
+			want := []string{fmt.Sprintf("top%d", i), "holder"}
 			subIdx := latestSub
 			if m.SubDate != "" {
 				for j, d := range c.SubRevs {
@@ -666,6 +736,9 @@ func checkRevSub(c Case, o *ev.Outcome) {
 			want = append(want, fmt.Sprintf("sub%d", subIdx))
 			if c.Nested {
 				want = append(want, "nested")
+				if c.Deep {
+					want = append(want, "deep")
+				}
 			}
 			sort.Strings(want)
 			mod := ms.Modules["rm@"+m.Rev]
@@ -706,6 +779,20 @@ func checkRevSub(c Case, o *ev.Outcome) {
 				o.Violate("include-is-inline", "C13/revsub/include-unbound", "load order %v: rm@%s: include of sub is not bound", perm, m.Rev)
 				return
 			}
+			ownDerived := false
+			for _, v := range subid.Values {
+				if v.Name == "subderived" && yang.RootNode(v) == yang.RootNode(subid) {
+					ownDerived = true
+				}
+			}
+			if !ownDerived {
+				var names []string
+				for _, v := range subid.Values {
+					names = append(names, yang.RootNode(v).FullName()+":"+v.Name)
+				}
+				o.Violate("include-is-inline", "C13/revsub/submodule-local-base/"+how, "load order %v: in %s the identity subderived (base subid, both written in that text) is not among the values of that subid: %v", perm, yang.RootNode(subid).FullName(), names)
+				return
+			}
 			hasMod := false
 			for _, v := range subid.Values {
 				if v.Name == "modid" && yang.RootNode(v) == mod {
@@ -720,6 +807,47 @@ func checkRevSub(c Case, o *ev.Outcome) {
 				o.Violate("include-is-inline", "C13/revsub/identity-of-"+which+"-revision/"+how, "load order %v: the identity modid of rm@%s (base subid, defined in the submodule it includes) is not among the values of that subid: %v", perm, m.Rev, names)
 				return
 			}
+			// the augment written in the submodule: judged for the revision that the bare name denotes (an older
+			// revision that includes the same submodule does not get it: known, see DESIGN section 5)
+			if mod == ms.Modules["rm"] {
+				// a text of sub that no revision of rm includes still has its augment applied (the repository's
+				// TestEntryNamespace pins that for a submodule its module does not include), and it lands in the
+				// latest revision: extra nodes are judged only when every text of sub is included by some revision
+				included := map[int]bool{}
+				for _, mm := range c.RevMods {
+					idx := latestSub
+					if mm.SubDate != "" {
+						for j, d := range c.SubRevs {
+							if d == mm.SubDate {
+								idx = j
+							}
+						}
+					}
+					included[idx] = true
+				}
+				h := yang.ToEntry(mod).Dir["holder"]
+				if h == nil || h.Dir[fmt.Sprintf("aug%d", subIdx)] == nil || (len(h.Dir) != 1 && len(included) == len(c.SubRevs)) {
+					var kids []string
+					if h != nil {
+						for k := range h.Dir {
+							kids = append(kids, k)
+						}
+					}
+					sort.Strings(kids)
+					o.Violate("include-is-inline", "C13/revsub/submodule-augment/"+how, "load order %v: /holder of rm@%s holds %v, expected aug%d from the augment written in the submodule text it includes", perm, m.Rev, kids, subIdx)
+					return
+				}
+			}
+			if imp := ms.Modules[fmt.Sprintf("imp%d", i)]; imp != nil {
+				if l := yang.ToEntry(imp).Dir["l"]; l == nil || l.Type == nil || l.Type.Units != fmt.Sprintf("s%d", subIdx) {
+					u := "?"
+					if l != nil && l.Type != nil {
+						u = l.Type.Units
+					}
+					o.Violate("include-is-inline", "C13/revsub/imported-typedef-of-"+which+"-revision/"+how, "load order %v: imp%d imports rm@%s and names r:subt: it gets the typedef with units %q, the submodule text that revision includes defines it with units \"s%d\"", perm, i, m.Rev, u, subIdx)
+					return
+				}
+			}
 			if fmt.Sprint(got) != fmt.Sprint(want) {
 				o.Violate("include-is-inline", "C13/revsub/tree-of-"+which+"-revision/"+how, "load order %v: the tree of rm@%s holds %v, expected %v (its own leaf and what its include of sub denotes)", perm, m.Rev, got, want)
 				return
@@ -730,6 +858,7 @@ func checkRevSub(c Case, o *ev.Outcome) {
 
 func genRevSub(t *rapid.T) Case {
 	c := Case{Kind: "revsub", Nested: rapid.IntRange(0, 2).Draw(t, "nested") == 0}
+	c.Deep = c.Nested && rapid.Bool().Draw(t, "deep")
 	subDates := []string{"", "2019-05-05", "2021-12-31"}
 	k := rapid.IntRange(1, 2).Draw(t, "submodule-texts")
 	seen := map[string]bool{}
@@ -757,8 +886,8 @@ func genRevSub(t *rapid.T) Case {
 	for i := range idx {
 		idx[i] = i
 	}
-	c.Perm = append(c.Perm, append([]int(nil), idx...))
-	for i := 0; i < 5; i++ {
+	c.Perm = append(c.Perm, append([]int(nil), idx...), append([]int(nil), idx...), append([]int(nil), idx...))
+	for i := 0; i < 7; i++ {
 		c.Perm = append(c.Perm, schema.Order(t, nn))
 	}
 	return c
